@@ -35,7 +35,7 @@ theorem N2_DPK1_DF__DS_DEGL (hc : c * c = 2) (h2 : (2:K) ≠ 0)
   c23_unfold
   generalize_ne hd0 => e0 he0
   (try (repeat' apply And.intro))
-  all_goals (first | rfl | (field_simp <;> (try simp only [← he0]) <;> c23_ring hc))
+  all_goals (first | rfl | (field_simp <;> (try simp only [← he0]) <;> c23_field hc))
 
 /-- `ABAQUS ← DTAU_DF` (2D): along every variation `δF = L F` with symmetric `L` the converted operator, applied to the
 rate of its kinematic variable, gives the rate of the Jaumann rate of the Kirchhoff stress / J that reproduces the same Lie derivative of
